@@ -2,6 +2,7 @@ package main
 
 import (
 	"bytes"
+	"context"
 	"encoding/json"
 	"fmt"
 	"os"
@@ -11,6 +12,7 @@ import (
 	"strconv"
 	"strings"
 	"sync"
+	"time"
 )
 
 // A panic of the code under test on a goroutine the harness does not own (a worker-pool worker executing a pooled
@@ -125,8 +127,16 @@ func argsWithOut(out string) []string {
 	return append(args, "--out", out)
 }
 
-func runChild(args []string, env ...string) (int, string) {
-	cmd := exec.Command(os.Args[0], args...)
+// runChild runs the harness binary itself as a child; limit > 0 kills it (with its children) after that time (exit code -1).
+func runChild(limit time.Duration, args []string, env ...string) (int, string) {
+	ctx := context.Background()
+	if limit > 0 {
+		var cancel context.CancelFunc
+		ctx, cancel = context.WithTimeout(ctx, limit)
+		defer cancel()
+	}
+	cmd := exec.CommandContext(ctx, os.Args[0], args...)
+	cmd.WaitDelay = 2 * time.Second
 	cmd.Env = append(append(os.Environ(), "C15_CHILD=1"), env...)
 	cmd.Stdout = os.Stdout
 	var eb bytes.Buffer
@@ -137,6 +147,9 @@ func runChild(args []string, env ...string) (int, string) {
 		code = 1
 		if ee, ok := err.(*exec.ExitError); ok {
 			code = ee.ExitCode()
+		}
+		if ctx.Err() != nil {
+			code = -1
 		}
 	}
 
@@ -225,7 +238,7 @@ func inflight(journalPath string) []int {
 func supervise() int {
 	out := argValue("out")
 	if out == "" {
-		code, st := runChild(os.Args[1:])
+		code, st := runChild(0, os.Args[1:])
 		os.Stderr.WriteString(st)
 
 		return code
@@ -243,7 +256,7 @@ func supervise() int {
 			os.WriteFile(spath, b, 0o644)
 			env = append(env, "C15_SKIP="+spath)
 		}
-		code, st = runChild(os.Args[1:], env...)
+		code, st = runChild(0, os.Args[1:], env...)
 		if code == 0 || !isGoCrash(st) {
 			break
 		}
@@ -253,14 +266,18 @@ func supervise() int {
 		if len(cands) > 96 {
 			cands = cands[:96]
 		}
-		for _, idx := range cands {
-			for try := 0; try < 2; try++ {
-				c, s := runChild(argsWithOut(filepath.Join(out, "only")), "C15_ONLY="+strconv.Itoa(idx))
+		// every candidate on its own (a case that neither crashes nor ends - e.g. an endless chain of pooled tasks - is
+		// given up after 40 s), twice when it did not crash, within an overall budget
+		deadline := time.Now().Add(4 * time.Minute)
+		for try := 0; try < 2 && time.Now().Before(deadline); try++ {
+			for _, idx := range cands {
+				if _, done := skip[strconv.Itoa(idx)]; done || !time.Now().Before(deadline) {
+					continue
+				}
+				c, s := runChild(40*time.Second, argsWithOut(filepath.Join(out, "only")), "C15_ONLY="+strconv.Itoa(idx))
 				if c != 0 && isGoCrash(s) {
 					skip[strconv.Itoa(idx)] = crashExcerpt(s)
 					found++
-
-					break
 				}
 			}
 		}
